@@ -353,7 +353,7 @@ def rcStep (d : RcDrv) (line : String) : RcDrv × String :=
   match w with
   | "setup" :: rest => ({ d with setup := d.setup.push (" ".intercalate rest) }, "")
   | "schedule" :: rest => (d, "\n".intercalate (rcRun d (rest.filterMap (·.toNat?))))
-  | ["seed", _] | ["maxsteps", _] | ["delay", _, _] => (d, "")
+  | ["seed", _] | ["maxsteps", _] | ["delay", _, _] | ["holdat", _, _, _] => (d, "")
   | ["---"] => ({}, "---")
   | t :: "nested" :: _ :: rest =>
     match (t.drop 1).toString.toNat?, parseSym rest with
@@ -579,7 +579,7 @@ def itRun (d : ItDrv) (sched : List Nat) : List String := Id.run do
 def itStep (d : ItDrv) (line : String) : ItDrv × String :=
   match line.trimAscii.toString.splitOn " " with
   | "setup" :: "watch" :: rest => ({ d with watched := d.watched ++ rest.filterMap (·.toNat?) }, "")
-  | ["setup", "fill"] | ["setup", "style", _] | ["seed", _] | ["maxsteps", _] | ["setup", "batches", _] | ["delay", _, _] => (d, "")
+  | ["setup", "fill"] | ["setup", "style", _] | ["seed", _] | ["maxsteps", _] | ["setup", "batches", _] | ["delay", _, _] | ["holdat", _, _, _] => (d, "")
   | [t, "drain", k] =>
     match (t.drop 1).toString.toNat? with
     | some t =>
@@ -763,6 +763,9 @@ structure FlDrv where
   dead : Option Nat := none
   /-- a registered raw action that will raise the signal once more from inside the next delivery -/
   reraise : Bool := false
+  /-- registration numbers of the live actions, parallel to `acts`; the next number -/
+  ids : List Nat := []
+  nreg : Nat := 0
 
 def flagIdx (n : String) : Nat :=
   let k := ((n.drop 1).toString.toNat?).getD 0
@@ -778,9 +781,18 @@ def flStep (d : FlDrv) (line : String) : FlDrv × String :=
   | w =>
     if d.dead.isSome then (d, "") else
     match w with
-    | ["flag", f] => ({ flDeclare d f with acts := d.acts ++ [.setTrue (flagIdx f)] }, "ok")
-    | ["usize", f, v] => ({ flDeclare d f with acts := d.acts ++ [.setUsize (flagIdx f) (v.toNat?.getD 0)] }, "ok")
-    | ["shutdown", st, f] => ({ flDeclare d f with acts := d.acts ++ [.condShutdown ((parseInt? st).getD 0) (flagIdx f)] }, "ok")
+    | ["flag", f] => ({ flDeclare d f with acts := d.acts ++ [.setTrue (flagIdx f)], ids := d.ids ++ [d.nreg], nreg := d.nreg + 1 }, "ok")
+    | ["usize", f, v] => ({ flDeclare d f with acts := d.acts ++ [.setUsize (flagIdx f) (v.toNat?.getD 0)], ids := d.ids ++ [d.nreg], nreg := d.nreg + 1 }, "ok")
+    | ["shutdown", st, f] => ({ flDeclare d f with acts := d.acts ++ [.condShutdown ((parseInt? st).getD 0) (flagIdx f)], ids := d.ids ++ [d.nreg], nreg := d.nreg + 1 }, "ok")
+    | ["unreg", k] =>
+      -- removing one action leaves the others in their order
+      match k.toNat? with
+      | some k =>
+        if k ≥ d.nreg then (d, "bad-op")
+        else match d.ids.idxOf? k with
+          | some i => ({ d with acts := d.acts.eraseIdx i, ids := d.ids.eraseIdx i }, "ok")
+          | none => (d, "gone")
+      | none => (d, "bad-op")
     | ["set", f, v] =>
       let x := v.toNat?.getD 0
       let x := if f.startsWith "b" then (if x == 0 then 0 else 1) else x
